@@ -53,6 +53,11 @@ pub struct Scenario {
     pub closing_parallel: bool,
     /// ms to wait after the last event before the closing phase starts
     pub settle_ms: u64,
+    /// "explicit": the harness drives the real repair path pair by pair (fresh tracker);
+    /// "background": the node's own replication cycle (with the tracker state it accumulated
+    /// during the run) is given several full cycles after the faults stopped
+    #[serde(default)]
+    pub closing_mode: String,
 }
 
 pub struct C01;
@@ -224,73 +229,84 @@ pub fn run_cluster(sc: &Scenario, prop: &str) -> Result<RunResult, String> {
     step(&mut cl, t + sc.settle_ms)?;
 
     // ---- closing phase: every node completes an exchange with every other node ----
-    let mut pairs: Vec<(u8, u8)> = Vec::new();
-    for i in &ids {
-        for j in &ids {
-            if i != j {
-                pairs.push((*i, *j));
+    let mut incomplete: Vec<String> = Vec::new();
+    if sc.closing_mode == "background" {
+        if sc.cfg.repair_interval_ms > 10_000 {
+            return Err("background closing needs a running poller (repair interval <= 10 s)".into());
+        }
+        // every cycle polls every member and re-syncs what changed; after the faults stopped
+        // each cycle is a completed exchange with every peer. Give it six cycles.
+        let t = cl.elapsed_ms();
+        step(&mut cl, t + 6 * sc.cfg.repair_interval_ms + 8_000)?;
+        out.probe("closing_by_background_poller");
+    } else {
+        let mut pairs: Vec<(u8, u8)> = Vec::new();
+        for i in &ids {
+            for j in &ids {
+                if i != j {
+                    pairs.push((*i, *j));
+                }
             }
         }
-    }
-    let mut rng = rng_from(sc.closing_seed);
-    pairs.shuffle(&mut rng);
-    let mut rep_id = 0usize;
-    let mut queue: std::collections::VecDeque<(u8, u8, u32)> = pairs.iter().map(|(a, b)| (*a, *b, 0)).collect();
-    let width = if sc.closing_parallel { 2 } else { 1 };
-    let mut inflight: Vec<(usize, u8, u8, u32, u64)> = Vec::new();
-    let mut incomplete: Vec<String> = Vec::new();
-    while !queue.is_empty() || !inflight.is_empty() {
-        while inflight.len() < width {
-            // at most one exchange per repairing node at a time
-            let pos = queue.iter().position(|(a, _, _)| !inflight.iter().any(|f| f.1 == *a));
-            let Some(pos) = pos else { break };
-            let (a, b, tries) = queue.remove(pos).unwrap();
-            rep_id += 1;
-            cl.shared.borrow_mut().repairs.push(RepairRecord { rep_id, node: a, peer: b, result: None });
-            if !cl.send_cmd(a, Cmd::Repair { rep_id, peer: b }) {
-                return Err(format!("harness: node {a} is not up in the closing phase"));
+        let mut rng = rng_from(sc.closing_seed);
+        pairs.shuffle(&mut rng);
+        let mut rep_id = 0usize;
+        let mut queue: std::collections::VecDeque<(u8, u8, u32)> = pairs.iter().map(|(a, b)| (*a, *b, 0)).collect();
+        let width = if sc.closing_parallel { 2 } else { 1 };
+        let mut inflight: Vec<(usize, u8, u8, u32, u64)> = Vec::new();
+        while !queue.is_empty() || !inflight.is_empty() {
+            while inflight.len() < width {
+                // at most one exchange per repairing node at a time
+                let pos = queue.iter().position(|(a, _, _)| !inflight.iter().any(|f| f.1 == *a));
+                let Some(pos) = pos else { break };
+                let (a, b, tries) = queue.remove(pos).unwrap();
+                rep_id += 1;
+                cl.shared.borrow_mut().repairs.push(RepairRecord { rep_id, node: a, peer: b, result: None });
+                if !cl.send_cmd(a, Cmd::Repair { rep_id, peer: b }) {
+                    return Err(format!("harness: node {a} is not up in the closing phase"));
+                }
+                inflight.push((rep_id, a, b, tries, cl.elapsed_ms()));
             }
-            inflight.push((rep_id, a, b, tries, cl.elapsed_ms()));
+            let t = cl.elapsed_ms();
+            step(&mut cl, t + 20)?;
+            let mut still = Vec::new();
+            for (rid, a, b, tries, started) in inflight.drain(..) {
+                let res = cl.shared.borrow().repairs.iter().find(|r| r.rep_id == rid).and_then(|r| r.result.clone());
+                match res {
+                    None => {
+                        if cl.elapsed_ms() > started + 60_000 {
+                            incomplete.push(format!("exchange {a}<-{b} did not finish within 60 simulated seconds"));
+                        } else {
+                            still.push((rid, a, b, tries, started));
+                        }
+                    },
+                    Some(Ok(unsynced)) if unsynced.is_empty() => {
+                        out.probe("closing_exchange_completed");
+                    },
+                    Some(Ok(unsynced)) => {
+                        if tries < 3 {
+                            queue.push_back((a, b, tries + 1));
+                            out.probe("closing_exchange_repeated");
+                        } else {
+                            incomplete.push(format!("exchange {a}<-{b} still reports keyspaces {:?} unsynced after 4 attempts", unsynced));
+                        }
+                    },
+                    Some(Err(e)) => {
+                        if tries < 3 {
+                            queue.push_back((a, b, tries + 1));
+                            out.probe("closing_exchange_rpc_error_retried");
+                        } else {
+                            incomplete.push(format!("exchange {a}<-{b} failed: {e}"));
+                        }
+                    },
+                }
+            }
+            inflight = still;
         }
         let t = cl.elapsed_ms();
-        step(&mut cl, t + 20)?;
-        let mut still = Vec::new();
-        for (rid, a, b, tries, started) in inflight.drain(..) {
-            let res = cl.shared.borrow().repairs.iter().find(|r| r.rep_id == rid).and_then(|r| r.result.clone());
-            match res {
-                None => {
-                    if cl.elapsed_ms() > started + 60_000 {
-                        incomplete.push(format!("exchange {a}<-{b} did not finish within 60 simulated seconds"));
-                    } else {
-                        still.push((rid, a, b, tries, started));
-                    }
-                },
-                Some(Ok(unsynced)) if unsynced.is_empty() => {
-                    out.probe("closing_exchange_completed");
-                },
-                Some(Ok(unsynced)) => {
-                    if tries < 3 {
-                        queue.push_back((a, b, tries + 1));
-                        out.probe("closing_exchange_repeated");
-                    } else {
-                        incomplete.push(format!("exchange {a}<-{b} still reports keyspaces {:?} unsynced after 4 attempts", unsynced));
-                    }
-                },
-                Some(Err(e)) => {
-                    if tries < 3 {
-                        queue.push_back((a, b, tries + 1));
-                        out.probe("closing_exchange_rpc_error_retried");
-                    } else {
-                        incomplete.push(format!("exchange {a}<-{b} failed: {e}"));
-                    }
-                },
-            }
-        }
-        inflight = still;
-    }
-    let t = cl.elapsed_ms();
-    step(&mut cl, t + 200)?;
+        step(&mut cl, t + 200)?;
 
+    }
     if !incomplete.is_empty() {
         out.violate(format!("{prop}/closing-repair-exchange-does-not-complete"), incomplete.join("; "));
     }
@@ -534,7 +550,52 @@ pub fn gen_cluster_scenario(rng: &mut rand::rngs::SmallRng, k: &GenKnobs) -> Sce
         }
     }
     events.sort_by_key(|e| e.t());
-    Scenario { cfg, events, closing_seed: rng.gen(), closing_parallel: rng.gen_bool(0.4), settle_ms: if rng.gen_bool(0.5) { 0 } else { rng.gen_range(0..2_500) } }
+    let closing_mode = if !explicit_only && rng.gen_bool(0.5) { "background" } else { "explicit" };
+    Scenario { cfg, events, closing_seed: rng.gen(), closing_parallel: rng.gen_bool(0.4), settle_ms: if rng.gen_bool(0.5) { 0 } else { rng.gen_range(0..2_500) }, closing_mode: closing_mode.to_string() }
+}
+
+/// "Burst" family: a node whose direct replication reaches nobody (its view is empty) issues
+/// bursts of back-to-back writes on a slow store while its peers' fast pollers pull from it, so
+/// state snapshots, change timestamps and tracker updates race with the writes; convergence is
+/// then left to the nodes' own replication cycles.
+pub fn gen_burst_scenario(rng: &mut rand::rngs::SmallRng) -> Scenario {
+    let n = rng.gen_range(2..=3usize);
+    let nodes: Vec<NodeCfg> = (1..=n as u8)
+        .map(|id| NodeCfg { id, dc: "dc0".into(), skew_ms: if rng.gen_bool(0.3) { rng.gen_range(-60_000..60_000) } else { 0 }, storage_faults: vec![], storage_latency_max_ms: rng.gen_range(3..40) })
+        .collect();
+    let cfg = ClusterCfg {
+        nodes,
+        tick_ms: 1,
+        latency_ms: (1, *[2u64, 10, 30].choose(rng).unwrap()),
+        net_seed: rng.gen(),
+        base_ms: rng.gen_range(1_000_000_000u64..60_000_000_000),
+        repair_interval_ms: rng.gen_range(150..1_200),
+        jitter_sites: if rng.gen_bool(0.3) { vec![("poller.handle_modified".to_string(), rng.gen_range(1..60))] } else { vec![] },
+        hook_seed: rng.gen(),
+    };
+    let ids: Vec<u8> = cfg.nodes.iter().map(|n| n.id).collect();
+    let writers: Vec<u8> = ids.iter().copied().filter(|_| rng.gen_bool(0.6)).collect();
+    let writers = if writers.is_empty() { vec![ids[0]] } else { writers };
+    let mut events = Vec::new();
+    // writers see nobody (their direct messages and batches reach no one); everyone else sees all
+    for w in &writers {
+        events.push(Ev::View { t: 0, node: *w, members: vec![] });
+    }
+    let kss: Vec<String> = (0..rng.gen_range(1..=2)).map(|i| format!("ks{i}")).collect();
+    let nids = rng.gen_range(2..=6u64);
+    let mut t = rng.gen_range(600..1_500);
+    for _ in 0..rng.gen_range(2..=6) {
+        let w = *writers.choose(rng).unwrap();
+        let ks = kss.choose(rng).unwrap().clone();
+        for _ in 0..rng.gen_range(2..=6) {
+            let kind = if rng.gen_bool(0.75) { "put" } else { "del" };
+            events.push(Ev::Op { t, node: w, spec: OpSpec { kind: kind.to_string(), ks: ks.clone(), ids: vec![rng.gen_range(0..nids)], level: "None".to_string() } });
+            t += rng.gen_range(0..4);
+        }
+        t += rng.gen_range(100..2_500);
+    }
+    events.sort_by_key(|e| e.t());
+    Scenario { cfg, events, closing_seed: rng.gen(), closing_parallel: false, settle_ms: 0, closing_mode: "background".to_string() }
 }
 
 pub fn cluster_components() -> Vec<(&'static str, &'static str)> {
@@ -652,6 +713,9 @@ impl Check for C01 {
     }
     fn generate(&self, seed: u64, idx: u64, _tier: Tier) -> Value {
         let mut rng = rng_from(case_seed(seed, idx));
+        if idx % 4 == 3 {
+            return serde_json::to_value(gen_burst_scenario(&mut rng)).unwrap();
+        }
         let k = GenKnobs { max_nodes: 5, max_ops: 40, span_ms: 25_000, level_bias_none: 0.4 };
         serde_json::to_value(gen_cluster_scenario(&mut rng, &k)).unwrap()
     }
